@@ -42,6 +42,9 @@ def inputs(ctx, big=False):
     for k in (254, 255, 256, 499, 500, 501, 997, 998, 999, 1000, 1001, 2048):
         xs += ["a" * k + " b", "x" * k + "\u00df", " " * k + "a", "A" * k, "\u0130" * (k // 8) + " i"]
     # letters that match [a-z] case-insensitively in a str pattern although they are not ASCII (Kelvin sign, long s, dotless / dotted i)
+    # internationalised hosts with unsafe ASCII in the authority; labels with character references whose upper-case form is no reference
+    xs += ["http://b\u00fccher.de\" onmouseover=\"alert(1)", "http://m\u00fcnchen.example <draft>", "https://\u00e9.com\\docs", "//\u65e5\u672c.jp\"x", "http://\u00fc.de/\"", "HTTP://\u00dc.DE'<",
+           "&auml;rger", "&AUML;RGER", "foo&nbsp;bar", "a&#32;&#32;b", "x &amp;lt; y", "&szlig;", "&eacute;T&Eacute;", "&nbsp;", "&#x41;&#97;", "&Auml;&auml;"]
     for ch in ("\u212a", "\u017f", "\u0131", "\u0130"):
         xs += ["data:image/png;base64,iVBORw0%sGgo=" % ch, "http://e%sample.com/%s" % (ch, ch), "DATA:IMAGE/PNG;BASE64,%s" % ch, "javascript%s:x" % ch, "%%4%s" % ch, ch + "&amp;" + ch]
     return xs
